@@ -13,7 +13,7 @@ REPAIRED functions; the card (`Card`, `CardCfg`, `isoPeer`), the air interface (
   and the exchange ends with `Type4TagCommandError(TIMEOUT_ERROR)` when the sum exceeds
   `max_wtxm_sum = int(MAX_WTX_TIME / fwt) = 59 * 2^(14 - FWI)` (`Pcd.wlim`, `wtxLimit`);
 * `blockLoop`: a retransmission after R(ACK) with the other block number is only made while
-  `i <= n_retry_nak`, then `PROTOCOL_ERROR`;
+  `i <= resendMax n_retry_nak` (= `n_retry_nak`), then `PROTOCOL_ERROR`;
 * `recvChain`: a block that announces chaining but carries no INF, or a response that is already longer than
   65538 octets, is `PROTOCOL_ERROR`.
 
@@ -58,9 +58,18 @@ def xchgW {σ} (P : Peer σ) (L : Nat) : Nat → Nat → World σ → Bytes → 
     | .protocol => (r.1, .protocol)
     | .fuel => (r.1, .fuel)
 
+/-- the retransmission after R(ACK) with the other block number is made while `i ≤ resendMax n_retry_nak`
+(`fixes/C08/0010`: `if i > self.n_retry_nak: raise Type4TagCommandError(PROTOCOL_ERROR)`).  The proofs use nothing but
+`resendMax n ≤ n + 1`. -/
+def resendMax (n : Nat) : Nat := n
+
+/-- rounds (blocks that are not S(WTX) responses) of one retry loop at most: a round is started while `i ≤ n` after a
+timeout / transmission error and while `i ≤ resendMax n` after R(ACK) -/
+def roundsMax (n : Nat) : Nat := max n (resendMax n) + 1
+
 /-- the `for i in itertools.count(start=1)` retry loops (command and response phase), see `IsoDep.blockLoop`;
 `resend = some pcb`: an answer starting with that octet (R(ACK) with the other block number) makes the loop send
-`req` again while `i ≤ n`; `rty` is sent after a timeout / transmission error / empty frame while `i ≤ n` -/
+`req` again while `i ≤ resendMax n`; `rty` is sent after a timeout / transmission error / empty frame while `i ≤ n` -/
 def blockLoop {σ} (P : Peer σ) (F L n : Nat) (resend : Option Nat) (req rty : Bytes) :
     Nat → Nat → Bytes → World σ → World σ × Py Bytes
   | 0, _, _, w => (w, .error .outOfFuel)
@@ -71,7 +80,7 @@ def blockLoop {σ} (P : Peer σ) (F L n : Nat) (resend : Option Nat) (req rty : 
       if i ≤ n then blockLoop P F L n resend req rty f (i+1) rty r.1 else (r.1, .error (.tagCmd RECEIVE_ERROR))
     | .data (a :: t) =>
       if resend = some a then
-        if i > n then (r.1, .error (.tagCmd PROTOCOL_ERROR))
+        if i > resendMax n then (r.1, .error (.tagCmd PROTOCOL_ERROR))
         else blockLoop P F L n resend req rty f (i+1) req r.1
       else (r.1, .ok (a :: t))
     | .timeout =>
@@ -227,10 +236,10 @@ def runOps {σ} (P : Peer σ) (F : Nat) : List Op → Pcd → World σ → World
 /-! ## bounds -/
 
 /-- fuel that is enough for every loop of the repaired initiator, whatever the card does -/
-def fuelNeed (pcd : Pcd) : Nat := max (max (pcd.wlim + 1) (max (pcd.nNak + 2) (pcd.nAck + 2))) 65540
+def fuelNeed (pcd : Pcd) : Nat := max (max (pcd.wlim + 1) (max (roundsMax pcd.nNak + 1) (roundsMax pcd.nAck + 1))) 65540
 
-/-- frames needed at most by one retry loop: `n + 1` rounds of at most `1 + max_wtxm_sum` frames -/
-def loopFrames (L n : Nat) : Nat := (n + 1) * (L + 1)
+/-- frames needed at most by one retry loop: `roundsMax n` rounds of at most `1 + max_wtxm_sum` frames -/
+def loopFrames (L n : Nat) : Nat := roundsMax n * (L + 1)
 
 /-- frames needed at most by one `exchange` for a command of `len` octets: one retry loop per command block
 (at most `len` blocks) and at most 65539 retry loops in the response phase -/
